@@ -981,6 +981,20 @@ func TestVerif(t *testing.T) {
 		if err := vlib.ReplayCase(env.Replay, &cs); err != nil {
 			t.Fatalf("cannot read replay: %v", err)
 		}
+		if csc, ok := parseCScenario(cs.Scenario); ok {
+			fmt.Printf("replay: %s\n", strings.Join(cs.Scenario, "; "))
+			for i := 0; i < 50; i++ {
+				tr := runChanOnce(t, csc)
+				for _, f := range monitorChan(csc, tr) {
+					if cs.Kind == "" || f.Kind == cs.Kind {
+						fmt.Printf("monitor: %s\n  %s\ntrace:\n  %s\n", f.Kind, f.What, strings.Join(cTraceLines(tr), "\n  "))
+						os.Exit(1)
+					}
+				}
+			}
+			fmt.Println("monitor: no clause violated in 50 runs of the scenario")
+			return
+		}
 		sc, ok := parseScenario(cs.Scenario)
 		if !ok {
 			t.Fatalf("bad scenario in replay")
@@ -1034,8 +1048,24 @@ func TestVerif(t *testing.T) {
 	if env.Thorough() || env.Deep {
 		maxCases = 40000
 	}
+	cm, err := vlib.StartModel(env.Driver, "chanstream")
+	if err != nil {
+		cm = nil
+	}
+	defer cm.Close()
+	for _, f := range vlib.CorpusFiles(env.Corpus, ".cscn") {
+		csc, ok := parseCScenario(vlib.ReadLines(f))
+		if !ok {
+			t.Fatalf("bad corpus file %s", f)
+		}
+		res.Count("corpus")
+		cm = c.checkChan(csc, cm)
+	}
 	for i := 0; i < maxCases && time.Now().Before(deadline); i++ {
 		c.check(genScenario(r.Fork(), res))
+		if i%8 == 0 { // stream.Chan: one scenario in nine
+			cm = c.checkChan(genCScenario(r.Fork()), cm)
+		}
 	}
 	if env.Thorough() && !raceEnabled { // the -race binary runs the random scenarios only
 		c.repeats = 6
